@@ -97,6 +97,29 @@ Theorem C17_group_marking : forall unset e1 (rest : list lentry),
 Proof. exact group_marking. Qed.
 Print Assumptions C17_group_marking.
 
+Definition ex_e0 (id : Z) (ino nl : N) (p : N) : lentry :=
+  mkLentry id 5 ino nl AE_IFREG (Some 10%Z) None [p].
+(* Refinement, new-cpio strategy: per key the resolver is the three-field state machine [out_c]
+   (first pathname, the one deferred entry, links still missing): the first entry of a key is
+   held back, every later one releases the previously held entry marked as a hard link to the
+   first pathname, and the entry that completes the count comes out second and unmarked (it
+   carries the body); keys never interfere, and the table growth is invisible *)
+Theorem C17_newcpio_refines_key_spec : forall es t t' os,
+  Good t -> strategy t = LINKIFY_LIKE_NEW_CPIO -> push_all t es = (t', os) ->
+  Good t' /\ strategy t' = LINKIFY_LIKE_NEW_CPIO /\ length os = length es /\
+  forall d i,
+    outs_for d i es os = fst (cpio_spec (abs_c t d i) (filter (same_key d i) es)) /\
+    abs_c t' d i = snd (cpio_spec (abs_c t d i) (filter (same_key d i) es)).
+Proof. exact newcpio_refines. Qed.
+Print Assumptions C17_newcpio_refines_key_spec.
+
+Example C17_cpio_spec_group :
+  fst (cpio_spec None [ex_e0 1 7 3 97; ex_e0 2 7 3 98; ex_e0 3 7 3 99]) =
+    [(None, None);
+     (Some (mark_hardlink true (ex_e0 1 7 3 97) [97]), None);
+     (Some (mark_hardlink true (ex_e0 2 7 3 98) [97]), Some (ex_e0 3 7 3 99))].
+Proof. vm_compute. reflexivity. Qed.
+
 (* non-vacuity: a concrete interleaved run meets the hypotheses and really defers / marks entries *)
 Definition ex_e (id : Z) (ino nl : N) (p : N) : lentry :=
   mkLentry id 5 ino nl AE_IFREG (Some 10%Z) None [p].
